@@ -54,7 +54,8 @@ def digit_component_dataset(rng):
     """string-named dataset (at least one non-digit name) in which a strongly connected component consists of
     digit-like names only: its sub-problem, taken alone, would be an all-integer dataset"""
     letters = rng.sample(["a", "b", "zz"], rng.randint(1, 2))
-    digits = rng.sample(["1", "2", "3", "10", "20", "7"], rng.randint(3, 4))
+    # half of the time the digit names are NOT in canonical form ("007", "010"): str(int(name)) != name
+    digits = rng.sample(["1", "2", "3", "10", "20", "7"] if rng.random() < 0.5 else ["007", "010", "02", "0003", "9", "040"], rng.randint(3, 4))
     rots = [digits[i:] + digits[:i] for i in range(len(digits))]
     D = []
     for rot in rng.sample(rots, rng.randint(2, len(rots))):
